@@ -514,11 +514,17 @@ where
 
 fn nuts_case(ctx: &Ctx, rep: &mut Report, case: u64, g: &mut Sm64) {
     let mon = "moments";
-    let d = g.range(1, 4);
+    // half of the families in 5..10 dimensions with a low requested acceptance rate: energy errors
+    // of order one, many doublings, subtrees with fewer admissible points than the tree so far
+    let wide = g.chance(0.5);
+    let d = if wide { g.range(5, 10) } else { g.range(1, 4) };
     let t = DenseGauss::random(g, d, 6.0);
-    let (r, n, warm) = if ctx.thorough { (192, 400, 300) } else { (48, 120, 120) };
+    let (r, n, warm) = if ctx.thorough { (192, 400, 300) } else if wide { (64, 200, 120) } else { (48, 120, 120) };
     let seed = g.next_u64() >> 1;
-    let delta = g.uniform(0.65, 0.9);
+    let delta = if wide { g.uniform(0.6, 0.7) } else { g.uniform(0.65, 0.9) };
+    if wide {
+        rep.count("nuts_families_dim5-10_low_acceptance");
+    }
     let inits: Vec<Vec<f64>> = (0..r).map(|_| t.draw(g)).collect();
     let cfg = json!({"sampler": "NUTS", "target": t.name(), "replicates": r, "draws_per_chain": n, "warmup": warm, "delta": delta, "seed": seed});
     rep.distinct(("nuts", d, case));
@@ -536,7 +542,15 @@ fn nuts_case(ctx: &Ctx, rep: &mut Report, case: u64, g: &mut Sm64) {
         }
     };
     let chains: Vec<Vec<Vec<f64>>> = (0..r).map(|c| (0..n).map(|k| v[(c * n + k) * d..(c * n + k + 1) * d].to_vec()).collect()).collect();
-    if !judge(rep, "NUTS", mon, case, &cfg, &gauss_stats(&t.mean, &t.cov, d, &chains)) {
+    let mut stats = gauss_stats(&t.mean, &t.cov, d, &chains);
+    // pooled over all directions: E[(x-m)' P (x-m)] = d (a width bias of a few per cent in every
+    // coordinate adds up here, the Monte-Carlo error shrinks like 1/sqrt(d))
+    stats.push(Stat {
+        name: "E[(x-m)'P(x-m)]".into(),
+        truth: d as f64,
+        reps: chains.iter().map(|c| c.iter().map(|x| -2.0 * crate::targets::RefTarget::logp(&t, x)).sum::<f64>() / c.len() as f64).collect(),
+    });
+    if !judge(rep, "NUTS", mon, case, &cfg, &stats) {
         return;
     }
     rep.count("nuts_families");
